@@ -217,6 +217,7 @@ func init() {
 		"vrtGo": func(fr *frame, a []Value) Value {
 			fr.th.visible = false
 			fr.th.spawn(fr, fr.callpos, a[0], nil)
+			fr.th.eng.threads[len(fr.th.eng.threads)-1].joinable = true
 			return nil
 		},
 		"vrtJoin": func(fr *frame, a []Value) Value {
@@ -224,7 +225,7 @@ func init() {
 			th.visible = false
 			th.block("vrtJoin", func() bool {
 				for _, t := range th.eng.threads {
-					if t != th && !t.finished {
+					if t != th && t.joinable && !t.finished {
 						return false
 					}
 				}
@@ -238,6 +239,23 @@ func init() {
 			th.visible = false
 			th.quiescing = true
 			th.block("vrtQuiesce", func() bool {
+				for _, t := range th.eng.threads {
+					if t != th && !t.quiescing && t.couldRun() {
+						return false // (a preempted thread must get its turn before the system is quiescent)
+					}
+				}
+				return true
+			})
+			th.quiescing = false
+			return nil
+		},
+		// vrtSettle(): like vrtQuiesce, but a thread suspended by a preemption is left suspended
+		// (a remote peer reacts to what is on the wire while some local goroutine is stalled)
+		"vrtSettle": func(fr *frame, a []Value) Value {
+			th := fr.th
+			th.visible = false
+			th.quiescing = true
+			th.block("vrtSettle", func() bool {
 				for _, t := range th.eng.threads {
 					if t != th && !t.quiescing && t.enabled() {
 						return false
